@@ -5,6 +5,18 @@ import json, pathlib
 ALL = [f'C{i:02d}' for i in range(1, 20)]
 
 CHECKS = {
+ 'C16': dict(
+   technique='Coq model of the routing (buckets by exact type, writer extend/append, flatten, nest_level) with theorems for single objects, foreign values, waveguide groups and the single-column writer + identity-level differential on real objects over call histories',
+   text='Props/C16.v: a single supported object goes to the collection of its own type and nowhere else; any other type is rejected '
+        'with TypeError and nothing is stored; Device.extend with waveguides and groups of waveguides appends them in order with '
+        'the grouping preserved and touches no other collection; a trench writer built from one column equals the one built from '
+        'a one-element list. Tie to /repo: random histories of Device.append/extend and of every writer\'s append/extend on real '
+        'Waveguide / NasuWaveguide / TrenchColumn / UTrenchColumn / Marker objects, user subclasses, foreign values, groups and '
+        'nested groups: exception class per call, the five obj_lists (identities and nesting) and every argument after the call '
+        'are compared with the model; TrenchWriter / UTrenchWriter constructors are exercised with single columns and lists.',
+   note='Trusted: Coq kernel; harness/c16.py identity bookkeeping. The general mixed-history clause is decided by the '
+        'correspondence (the model is executable for every history); the theorems cover the cases listed.',
+   design='5/C16'),
  'C08': dict(
    technique='Coq proof (Nasu pass order as an arithmetic characterisation; REPEAT executes its body n times) + token-level differential of the _WG/_NASU/_MK files through the session model + controller monitors + file-system naming check',
    text='Props/C08.v: the Nasu pass offsets are exactly {k/2 : |k| <= n-1, k = n-1 mod 2} (n entries, symmetric, one shift apart, '
